@@ -197,6 +197,12 @@ def run(seed=0, rounds=400):
     from native import axioms_c14  # externals of the C14 extension contracts (mask rank function, math.fsum/sqrt, float ** 2)
     for _ in range(rounds):
         axioms_c14.run(check, rng, int(rng.randint(0, 7)))
+    from native import axioms_c08  # small-matrix numpy facts of the C08 edge-transform contracts
+    for _ in range(rounds):
+        axioms_c08.run(check, rng)
+    from native import axioms_c10  # n-d array externals of the C10 StructuredTopology contracts (ravel, reshape, basic-index stores)
+    for _ in range(rounds):
+        axioms_c10.run(check, rng)
     # L-MONOID (C11 chain contracts): the fold of an associative operation with identity over a list -- split, singleton,
     # empty, frame (the fold depends only on the items of the range), and the splice form used for `items[i:i+2] = pair`;
     # instantiated with 2x2 integer matrices under multiplication (a non-commutative monoid)
